@@ -156,7 +156,7 @@ theorem mul_inv_cancel (u : UnitV K) (ho : u.offset = 0) (hl : u.isLogarithmic =
     intro i _; simp [hl]
   refine ⟨⟨u.expr.pow (-1), RPow.rpow u.scale (-1), 0, u.dim.pow (-1), true⟩, ?_⟩
   have hpow : u.pow (-1) = .ok ⟨u.expr.pow (-1), RPow.rpow u.scale (-1), 0, u.dim.pow (-1), true⟩ := by
-    simp [UnitV.pow, hl]
+    simp [UnitV.pow, hl, ho]
   have hdim : u.dim * u.dim.pow (-1) = Dim.one := by rw [Dim.pow_neg_one]; exact Dim.mul_inv' _
   -- the inverse is logarithmic only if u is (dimension logarithmic^-1 ≠ logarithmic)
   have hilog : (⟨u.expr.pow (-1), RPow.rpow u.scale (-1), 0, u.dim.pow (-1), true⟩ : UnitV K).isLogarithmic = true →
@@ -199,7 +199,10 @@ theorem pow_pow (u : UnitV K) (p q : Rat) (a b c : UnitV K) (hs : P u.scale) (hc
     (h1 : u.pow p = .ok a) (h2 : a.pow q = .ok b) (h3 : u.pow (p * q) = .ok c) : UnitV.Equiv b c := by
   simp only [UnitV.pow] at h1 h2 h3
   split at h1 <;> try contradiction
+  split at h1 <;> try contradiction
   split at h2 <;> try contradiction
+  split at h2 <;> try contradiction
+  split at h3 <;> try contradiction
   split at h3 <;> try contradiction
   cases h1; cases h2; cases h3
   refine ⟨laws.rpow_mul p q hs, rfl, Dim.pow_pow _ _ _, ⟨laws.rpow_mul p q hc, fun s => ?_⟩⟩
@@ -213,7 +216,10 @@ theorem mul_pow (u v : UnitV K) (p : Rat) (m mp up vp r : UnitV K) (hu : u.WF) (
   obtain ⟨ms, md, me, _, _⟩ := mul_ok u v m hu hv h1
   simp only [UnitV.pow] at h2 h3 h4
   split at h2 <;> try contradiction
+  split at h2 <;> try contradiction
   split at h3 <;> try contradiction
+  split at h3 <;> try contradiction
+  split at h4 <;> try contradiction
   split at h4 <;> try contradiction
   cases h2; cases h3; cases h4
   have wf0 : ∀ (x : UnitV K), x.offset = 0 → x.WF := fun x hx h => absurd hx h
@@ -227,34 +233,16 @@ theorem mul_pow (u v : UnitV K) (p : Rat) (m mp up vp r : UnitV K) (hu : u.WF) (
     simp only [UExpr.pow, UExpr.mul, expOf_append, expOf_scaleF]; grind
 
 omit laws in
-/-- offset units have no multiplicative inverse: `degC * degC**-1` is refused -/
-theorem offset_inverse_refused (u i : UnitV K) (ho : u.offset ≠ 0) (hu : u.WF)
-    (hi : u.pow (-1) = .ok i) : u.mul i = .error .InvalidUnitOperation := by
-  have n1 : Dim.one ≠ Dim.dTemperature := by decide
-  have n2 : Dim.one ≠ Dim.dAngle := by decide
-  have hT := hu ho
-  simp only [UnitV.pow] at hi
-  split at hi <;> try contradiction
-  cases hi
-  have hidl : (⟨u.expr.pow (-1), RPow.rpow u.scale (-1), 0, u.dim.pow (-1), true⟩ : UnitV K).isDimensionless = false := by
-    simp only [isDimensionless, isTempOrAngle] at hT ⊢
-    cases hd : (u.dim.pow (-1) == Dim.one) with
-    | false => rfl
-    | true =>
-      have h1 := eq_of_beq hd
-      have : u.dim = Dim.one := by
-        have := congrArg (fun d => d.pow (-1)) h1
-        simp only [Dim.pow_pow, Dim.one_pow] at this
-        have e : (-1 : Rat) * -1 = 1 := by grind
-        rw [e, Dim.pow_one] at this; exact this
-      simp_all
-  have hudl : u.isDimensionless = false := by
-    simp only [isDimensionless, isTempOrAngle] at hT ⊢
-    cases hd : (u.dim == Dim.one) with
-    | false => rfl
-    | true => have := eq_of_beq hd; simp_all
-  simp only [UnitV.mul, mulOffset, hidl, hudl]
-  simp [ho]
+/-- offset units have no multiplicative inverse: `degC ** -1` is itself refused (`Unit.__pow__`
+    refuses a unit with an offset for every exponent but 0 and 1, fix C08-02) -/
+theorem offset_inverse_refused (u : UnitV K) (ho : u.offset ≠ 0) :
+    u.pow (-1) = .error .InvalidUnitOperation := by
+  have h0 : ((-1 : Rat) != 0) = true := by decide +kernel
+  have h1 : ((-1 : Rat) != 1) = true := by decide +kernel
+  simp only [UnitV.pow]
+  split
+  · rfl
+  · simp [ho, h0, h1]
 
 omit laws in
 /-- equality is decided by scale, offset and dimension only (so `J == N*m == kg*m**2/s**2`) -/
